@@ -542,11 +542,16 @@ private:
   void collectFromBucket(Bucket& bucket, TimePoint now,
                          std::vector<std::pair<TimerId, Callback>>& toFire)
   {
+    // Detached first: on a single-level wheel a delay beyond the range is re-inserted
+    // into this very bucket.
     auto* entry = bucket.head;
+    bucket.head = nullptr;
+    bucket.tail = nullptr;
     while (entry)
     {
       auto* next = entry->next;
-      bucket.unlink(entry);
+      entry->prev = nullptr;
+      entry->next = nullptr;
       if (entry->deadline > now + _tickDuration)
       {
         // Drift catch-up walks buckets that lie ahead of the clock: an entry scheduled
